@@ -401,7 +401,8 @@ func propC05(c *Ctx) {
 			if s.Kind == "return" && s.Args[0] == "true" {
 				nTrue++
 				g := strings.Join(s.Guards, " && ")
-				ok := g == strings.Join(sortedCopy(third), " && ") || g == strings.Join(sortedCopy(append(append([]string{}, rec...), "!($0.fr.first == $1.ackNumber)")), " && ")
+				gc := joinSorted(canonAll(s.Guards))
+				ok := gc == joinSorted(canonAll(third)) || gc == joinSorted(canonAll(append(append([]string{}, rec...), "!($0.fr.first == $1.ackNumber)")))
 				c.Check(ok, l5, FuncName(fn)+"/retransmit-decision:"+itoa(nTrue), c.pos(s.Instr), "retransmit on the third duplicate ACK or on a partial ACK in recovery", "checkDuplicateAck asks for a retransmission under other conditions: ["+g+"]")
 			}
 		}
@@ -472,10 +473,16 @@ func propC05(c *Ctx) {
 	}
 	if fn := c.Fn(l7, rs+"Update"); fn != nil {
 		ss := "($0.s.sndCwnd < $0.s.sndSsthresh)"
-		c.CheckSites(l7, fn, []SiteSpec{
-			{Kind: "call", Target: rs + "updateSlowStart", Args: []string{"$0", "$1"}, Guards: []string{ss}, Exact: true, N: 1, Why: "below ssthresh: slow start with the acknowledged packet count"},
-			{Kind: "call", Target: rs + "updateCongestionAvoidance", Args: []string{"$0", "phi{$1 | " + rs + "updateSlowStart($0, $1)}"}, Guards: []string{}, Exact: true, N: 1, Why: "what slow start did not use (or everything) goes to congestion avoidance"},
-		})
+		ssCall := SiteSpec{Kind: "call", Target: rs + "updateSlowStart", Args: []string{"$0", "$1"}, Guards: []string{ss}, Exact: true, N: 1, Why: "below ssthresh: slow start with the acknowledged packet count"}
+		rest := rs + "updateSlowStart($0, $1)"
+		// two reviewed shapes with the same meaning: one congestion-avoidance call
+		// with the joined argument, or one call per branch
+		c.CheckSitesAny(l7, fn,
+			[]SiteSpec{ssCall,
+				{Kind: "call", Target: rs + "updateCongestionAvoidance", Args: []string{"$0", "phi{$1 | " + rest + "}"}, Guards: []string{}, Exact: true, N: 1, Why: "what slow start did not use (or everything) goes to congestion avoidance"}},
+			[]SiteSpec{ssCall,
+				{Kind: "call", Target: rs + "updateCongestionAvoidance", Args: []string{"$0", "$1"}, Guards: []string{"!" + ss}, Exact: true, N: 1, Why: "at or above ssthresh: everything goes to congestion avoidance"},
+				{Kind: "call", Target: rs + "updateCongestionAvoidance", Args: []string{"$0", rest}, Guards: []string{"!(" + rest + " == 0)", ss}, Exact: true, N: 1, Why: "what slow start did not use goes to congestion avoidance"}})
 	}
 	if fn := c.Fn(l7, rs+"reduceSlowStartThreshold"); fn != nil {
 		c.CheckSites(l7, fn, []SiteSpec{
